@@ -102,6 +102,7 @@ type StoreHandleV struct {
 type MapV struct {
 	T  *types.Map
 	Id *Term
+	C  *Cell // heap cell holding the *MapState (nil: contents untracked)
 }
 
 // IterV: state of a range-over-slice/map iteration handled by unrolling over concrete slices
